@@ -51,7 +51,8 @@ func runFreshView(rng *hx.Rng, r *hx.Run) result {
 	wrap := rng.Intn(4)
 	w := newWorld(rng, wrap)
 	root := w.views[0].v
-	parent, err := root.WithRealm([]byte{0xb0})
+	// the parent's realm slice has spare capacity: two views extended from it at the same time must not share a backing array
+	parent, err := root.WithRealm(append(make([]byte, 0, 16), 0xb0))
 	if err != nil {
 		panic(err)
 	}
@@ -64,7 +65,7 @@ func runFreshView(rng *hx.Rng, r *hx.Run) result {
 			"commit": "Commit of a batch of 20000-40000 Sets under b0ee (view lock in write mode for the whole Commit)",
 			"set":    "Set(ff, 1 MiB value) in a loop (view lock in write mode while the value is copied)",
 			"get":    "two goroutines Get(ff) of a 1 MiB value in a loop (view lock in read mode while the value is copied)"}[holder],
-		"x user (2 goroutines): v := parent.WithExtendedRealm(01) | parent.WithRealm(b001); then v.Set / v.Has / v.Get / v.Delete / v.Batched().Commit on keys b001 00..03; repeated"}
+		"x user (2 goroutines): v := parent.WithExtendedRealm(01) | parent.WithRealm(b001); (or 02 / b002); then v.Set / v.Has / v.Get / v.Delete / v.Batched().Commit on keys 00..03 of that realm; repeated"}
 	big := make([]byte, 1<<20)
 	var stop atomic.Bool
 	var hwg sync.WaitGroup
@@ -119,18 +120,19 @@ func runFreshView(rng *hx.Rng, r *hx.Run) result {
 			for n := 0; n < perUser; n++ {
 				var v kvstore.KVStore
 				var err error
+				sub := byte(1 + prng.Intn(2)) // realm b001 or b002: the two users often extend the parent differently at the same time
 				inv := w.clock.Add(1)
-				if prng.Bool() {
-					v, err = parent.WithExtendedRealm([]byte{0x01})
+				if prng.Chance(2, 3) {
+					v, err = parent.WithExtendedRealm([]byte{sub})
 				} else {
-					v, err = parent.WithRealm([]byte{0xb0, 0x01})
+					v, err = parent.WithRealm([]byte{0xb0, sub})
 				}
 				ret := w.clock.Add(1)
 				recs[u] = append(recs[u], &hop{inv: inv, ret: ret, kind: "flag", out: errAns(err)})
 				if err != nil {
 					continue
 				}
-				w.views[slot] = viewRec{v, "\xb0\x01"}
+				w.views[slot] = viewRec{v, string([]byte{0xb0, sub})}
 				k := string([]byte{byte(prng.Intn(4))})
 				val := string([]byte{byte(u + 1), byte(n)})
 				calls := []call{{kind: "set", view: slot, key: k, val: val}, {kind: "has", view: slot, key: k},
